@@ -239,8 +239,10 @@ def run(run):
     quick = run.tier == "quick"
     BATCH_TIMEOUT[0] = 100 if quick else 1500
     shards = 4 if quick else max(4, C.NPROC // 2)
-    plan = [("raw", 500 if quick else 5000), ("composite", 250 if quick else 3000),
-            ("http", 28 if quick else 450), ("cluster", 14 if quick else 260)]
+    plan = [("raw", run.scaled(500) if quick else 5000), ("composite", run.scaled(250) if quick else 3000),
+            ("http", run.scaled(28) if quick else 450), ("cluster", run.scaled(14) if quick else 260)]   # scaled: anchor drift
+    if quick and run.escalate > 1:
+        BATCH_TIMEOUT[0] = 100 * run.escalate
     stats, line_of, mism, samples = {}, {}, [], []
     # corpus first: recorded interesting cases (re-generated from their ids; scheduling may differ)
     corpus = os.path.join(C.VERIF, "corpus", "C08", "cases.txt")
